@@ -560,7 +560,7 @@ def pipeline_strategy(kinds, safe=False, no_setlimit=False):
             "svc": st.one_of(st.just([0]), st.lists(st.sampled_from([0, 1, 1, 2, 3, 4]), min_size=1, max_size=5),
                              st.lists(st.sampled_from([0, 1, 1, 2, 3, 4]), min_size=1, max_size=5)),
             "setlim": st.lists(st.tuples(st.sampled_from([1, 2, 3, 5, 7]), st.integers(1, 4)), max_size=0 if (safe or no_setlimit) else 2),
-            "chain": st.booleans(),
+            "chain": st.booleans(), "discard": st.booleans(), "defpat": st.sampled_from([0, 0, 1, 2, 3]),
             "arrivals": st.lists(arr, min_size=1, max_size=14 if big else 10),
             "spread": st.just(True) if safe else st.just(False),
         })
@@ -715,9 +715,15 @@ def pipeline_execute(obl, safe=False, no_setlimit=False):
             else:
                 from happysimulator.components.industrial.reneging import RenegingQueuedResource
 
+                # discard mode (reneged_target=None, documented) or a reneged-sink; patience from the event context or from
+                # default_patience_s
+                discard = bool(case.get("discard"))
+                defpat = int(case.get("defpat", 0) or 0) % 4
+
                 class RS(RenegingQueuedResource):
                     def __init__(self):
-                        super().__init__("srv", reneged_target=sink, policy=rec)
+                        super().__init__("srv", reneged_target=(None if discard else sink), policy=rec,
+                                         default_patience_s=(ticks(defpat - 1) if defpat else float("inf")))
                         self._in_flight = 0
 
                     def has_capacity(self):
@@ -730,11 +736,14 @@ def pipeline_execute(obl, safe=False, no_setlimit=False):
                         res = super().handle_queued_event(event)
                         if self.reneged > n0:
                             T.s(rid)["reneged"] += 1
-                            T.labels.add("reneged")
+                            T.labels.add("reneged-discarded" if discard else "reneged")
                         return res
 
                     def _handle_served_event(self, event):
                         rid = event.context["rid"]
+                        if T.s(rid)["reneged"]:
+                            bad("duplicated/reneged-and-served", f"at {tk(now())} request {rid} was counted as reneged "
+                                f"(reneged={self.reneged}) and is served as well (reneged_target={'None' if discard else 'sink'})")
                         self._in_flight += 1
                         begin(rid)
                         try:
@@ -876,7 +885,8 @@ def pipeline_execute(obl, safe=False, no_setlimit=False):
             if kind == "reneging":
                 ctx["created_at"] = Instant(at)
                 pat = int(a.get("pat", 9)) % 10
-                ctx["patience_s"] = ticks(pat) if pat < 9 else float("inf")
+                if not (int(case.get("defpat", 0) or 0) % 4 and pat % 2):       # otherwise default_patience_s applies
+                    ctx["patience_s"] = ticks(pat) if pat < 9 else float("inf")
             sim.schedule(Event(time=Instant(at), event_type="req", target=chain[int(a.get("hops", 0)) % (MAX_HOPS + 1)], context=ctx))
         if kind == "server" and conc == "dynamic":
             for t, n in (case.get("setlim") or [])[:3]:
@@ -895,6 +905,15 @@ def pipeline_execute(obl, safe=False, no_setlimit=False):
                 bad("counter-mismatch/dropped", f"end of instant {tk(t_ns)}: stats_dropped={dropped()} but refused pushes {b['dropped']}")
             if kind == "reneging" and comp.reneged != len(b["reneged"]):
                 bad("counter-mismatch/reneged", f"end of instant {tk(t_ns)}: reneged={comp.reneged} trace {b['reneged']}")
+            if kind == "reneging":
+                started = sum(1 for q in upto if T.st.get(q) and T.st[q]["start"])
+                if comp.served != started or comp.served + comp.reneged != sum(1 for q in upto if T.st.get(q) and T.st[q]["recv"]):
+                    bad("counter-mismatch/served-plus-reneged", f"end of instant {tk(t_ns)}: served={comp.served} reneged={comp.reneged}, "
+                        f"{started} requests started service, "
+                        f"{sum(1 for q in upto if T.st.get(q) and T.st[q]['recv'])} left the queue")
+                for q in b["reneged"]:
+                    if T.st[q]["sink"] or T.st[q]["start"]:
+                        bad("duplicated/reneged-and-served", f"request {q} reneged but was served / reached the sink")
             if pol == "deadline" and inner.stats.expired != len(b["expired"]):
                 bad("counter-mismatch/expired", f"end of instant {tk(t_ns)}: stats.expired={inner.stats.expired} trace {b['expired']}")
             if S["rej_counter"]() != len(b["rejected"]):
